@@ -156,6 +156,17 @@ CLAIMED["C03"] = (
     COMMON_NOTE + "Same assumed functions as C01.",
     "contract-based deductive verification (biconditional postconditions + call-site obligations)", "6/C03")
 
+CLAIMED["C11"] = (
+    "Proof about the three local decision functions of test() (function literals under contract): needToRun returns false ONLY IF no rerun is "
+    "forced and either the target is Unchanged/Reused, its result file exists and carries the current runtime hash (and the coverage file too "
+    "when coverage is needed), or the cache was consulted — with the current hash; cacheOutputFiles stores results as reusable ONLY IF no test "
+    "arguments were given and no case failed, and it stores under the current hash; test() hands results to cacheOutputFiles only under "
+    "AllSucceeded(). Hence failing results are never stored for reuse. Kernel-only: RuntimeHash's coverage of runtime inputs (C07-C09 family) and "
+    "equality of incremental and fresh outcomes are not under contract.",
+    COMMON_NOTE + "verifyHash, target.State(), PathExists are assumed functions of their arguments; retrieveFromCache, moveOutputFile, Cache.Store are "
+    "opaque; deep callees of test() whose bodies leave the supported subset (select, os/exec) are treated as opaque calls.",
+    "contract-based deductive verification (function-literal contracts, call-site obligations + SMT)", "6/C11")
+
 NOT_APPLICABLE = {
     "C05": "liveness / whole-run exit status under all schedules: no per-call contract expresses it (safety fragment is under C04)",
     "C30": "OS process groups, signals and wall-clock bounds; goroutines and select are outside the sequential contract model",
